@@ -43,6 +43,11 @@ SLOTS = ["0", "1", "1.2"]
 SUBSLOTS = ["0", "1", "2"]
 REPOS = ["gentoo", "other"]
 FLAGS = ["x", "y", "z", "q"]          # q is never in IUSE of pool packages
+# flag names with the other legal characters, chosen so that one is a prefix of another and so
+# that the name ends in the characters of a default marker ("+", "-", ")" cannot occur): a parser
+# that cuts the name at the wrong place (rstrip, partition, regex) lands on another flag of the pool
+ODD_FLAGS = ["x+", "x-", "x++", "y_", "y-+", "z@", "X9"]
+PKG_FLAGS = ["x", "y", "z", "x+", "x-", "x++", "y_", "y-+", "z@", "X9"]
 
 
 # --------------------------------------------------------------------------- records
@@ -109,6 +114,8 @@ def compile_pools(chk, name, imports, defs):
 def gen_use(rng, maxn=3, flags=FLAGS):
     n = rng.choice([1, 1, 2, 2, 3][:maxn + 2])
     toks = []
+    if flags is FLAGS and rng.random() < 0.4:
+        flags = FLAGS + ODD_FLAGS
     for f in rng.sample(flags, min(n, len(flags))):
         toks.append(rng.choice(["", "", "-", "-"]) + f + rng.choice(["", "", "(+)", "(-)"]))
     return toks
@@ -145,7 +152,8 @@ def gen_pkg_args(rng, key=None, versions=VERSIONS):
     v = rng.choice(versions) + rng.choice(REVS)
     slot = rng.choice(SLOTS)
     subslot = rng.choice([None, None] + SUBSLOTS)
-    iuse = [f for f in ("x", "y", "z") if rng.random() < 0.6]
+    pool = ("x", "y", "z") if rng.random() < 0.5 else PKG_FLAGS
+    iuse = [f for f in pool if rng.random() < (0.6 if len(pool) == 3 else 0.45)]
     use = [f for f in iuse if rng.random() < 0.5]
     if rng.random() < 0.1:
         use.append("q")                      # enabled although not in IUSE
@@ -288,6 +296,50 @@ def canon_restrictions(a):
 
 
 # --------------------------------------------------------------------------- main
+def load_corpus():
+    """corpus/C04/*.json: {"atoms": [text...], "packages": [[cpv, slot, subslot, iuse, use, repo]...]}"""
+    import json
+    from .common import VERIF
+    atoms, pkgs = [], []
+    for f in sorted((VERIF / "corpus" / "C04").glob("*.json")):
+        d = json.loads(f.read_text())
+        atoms += d.get("atoms", [])
+        pkgs += [(c, sl, ss, tuple(iu), tuple(u), r) for c, sl, ss, iu, u, r in d.get("packages", [])]
+    return atoms, pkgs
+
+
+def py_usedep(tok, iuse, use):
+    """the statement, for one USE dep token, directly in Python"""
+    d, s, f = _parse_tok(tok)
+    state = (f in use) if (f in iuse or d is None) else d
+    return state == s
+
+
+def probe_token(tok, impl_parse):
+    """a USE-dep token the implementation reads differently from the model: look for a package on
+    which the real atom a/b[tok] answers differently from the statement.  Packages range over the
+    flag as written and the flag the implementation extracted."""
+    import itertools
+    fl = {_parse_tok(tok)[2]}
+    if isinstance(impl_parse, list) and len(impl_parse) == 3 and isinstance(impl_parse[2], str):
+        fl.add(impl_parse[2])
+    fl = sorted(f for f in fl if f)
+    a = parse_plain(f"a/b[{tok}]")
+    if a is None:
+        return None
+    for k in range(len(fl) + 1):
+        for iuse in itertools.combinations(fl, k):
+            for j in range(len(iuse) + 1):
+                for use in itertools.combinations(iuse, j):
+                    p = mk_pkg(("a/b-1", "0", None, iuse, use, "gentoo"))
+                    got = impl_call(lambda: bool(a.match(p)))
+                    want = py_usedep(tok, set(iuse), set(use))
+                    if got != want:
+                        return {"atom": f"a/b[{tok}]", "package": pkg_fields(p), "implementation_match": got,
+                                "spec": f"the USE dep holds: {want}"}
+    return None
+
+
 def parse_plain(s, neg=False):
     """atom(s) through the real parser; None unless it is a plain (non-transitive) atom"""
     from pkgcore.ebuild.atom import atom
@@ -355,8 +407,8 @@ def main(chk: Check):
     chk.check_fingerprint(ANCHORS)
 
     # ---- usetok stream
-    tok_cases = []
-    for f in ("x", "ab", "a-b", "x_y", "a+"):
+    tok_cases, tok_texts = [], []
+    for f in ("x", "ab", "a-b", "x_y", "a+", "a-", "a++", "a--", "a+-", "a_", "a@", "A9"):
         for sign in ("", "-"):
             for d in ("", "(+)", "(-)"):
                 tok = sign + f + d
@@ -365,6 +417,7 @@ def main(chk: Check):
                     (r,) = restricts._parse_nontransitive_use((tok,))
                     return canon_one_use(r)
                 tok_cases.append((cstr(tok), impl_call(run)))
+                tok_texts.append(tok)
     chk.count("usetok", len(tok_cases))
 
     # ---- atoms
@@ -380,6 +433,8 @@ def main(chk: Check):
             "a/b[q(+)]", "a/b[q(-)]", "a/b[-q(+)]", "a/b[-q(-)]", "a/b[-x,-y]", "a/b[-x(-),-q(-)]",
             "a/b[-x(+),-y(+)]", "a/b[x,y]", "a/b[x(+),q(+)]", "a/b[x,-y,z(+)]", "a/b[-y(+),x(+)]", "a/b[-y(-),x(-)]",
             "a/b[-y,x]", "c/d", "=c/d-1*"]
+    corpus_atoms, corpus_pkgs = load_corpus()
+    core = corpus_atoms + core                      # corpus first
     atoms = build_atoms(chk, core, negate_some=False)
     n_core = len(atoms)
     atoms += build_atoms(chk, texts)
@@ -391,7 +446,8 @@ def main(chk: Check):
                ("a/b-1_pre1", "0", None, ("+x", "-y"), ("x", "y"), "gentoo"),
                ("a/b-1-r02", "0", None, ("x",), (), "gentoo"),
                ("a/b-1", "0", None, ("y",), (), "gentoo")]
-    n_pk = chk.n(30, 60)
+    pk_args = corpus_pkgs + pk_args
+    n_pk = len(corpus_pkgs) + chk.n(30, 60)
     while len(pk_args) < n_pk:
         pk_args.append(gen_pkg_args(rng, key=main_key if rng.random() < 0.85 else None))
     pkgs = []
@@ -500,8 +556,13 @@ def main(chk: Check):
     r = chk.coq_eval("usetok", IMPORTS, "str", tok_cases, ["mismatches run_usetok cases"])
     if r is not None:
         for k in r[0][:3]:
+            ex = impl_call(lambda: probe_token(tok_texts[k], tok_cases[k][1]))
+            if isinstance(ex, dict):
+                chk.violation("property", {"what": "a USE dependency is evaluated on another flag / default than the one "
+                                                   "written (atom.match differs from the statement)", "input": ex})
             chk.violation("correspondence", {"what": "USE dep token parse: implementation and Model_C04.parse_use_token disagree",
-                                             "input": tok_cases[k][0], "implementation": tok_cases[k][1]}, no_input=True)
+                                             "input": tok_texts[k], "implementation": tok_cases[k][1]},
+                          no_input=not isinstance(ex, dict))
     r = chk.coq_eval("restr", IMPORTS, "atom", restr_cases,
                      ["mismatches run_restr cases", "where_ atom_illformed cases"])
     restr_bad = []
